@@ -14,8 +14,8 @@ def c02(tier):
         runs.append(H("c01_foreach", "asan", 60, "3,5", timeout_per_case=40, params=dict(P, maxitems=2000)))
     else:
         for t in TOPOS_THOROUGH:
-            runs.append(H("c01_foreach", "plain", 2500, t, timeout_per_case=15, params=dict(P, maxitems=8000)))
-            runs.append(H("c01_foreach", "asan", 400, t, timeout_per_case=60, params=dict(P, maxitems=4000)))
+            runs.append(H("c01_foreach", "plain", 1500, t, timeout_per_case=15, params=dict(P, maxitems=8000)))
+            runs.append(H("c01_foreach", "asan", 250, t, timeout_per_case=60, params=dict(P, maxitems=4000)))
         for cpus in (2, 4):
             runs.append(H("c01_foreach", "plain", 500, "12,12,8", cpus=cpus, timeout_per_case=40,
                           params=dict(P, oversub=1, maxitems=1000)))
